@@ -69,7 +69,9 @@ def write_crate(cfg, lib_text, feats, extra_deps=''):
     def put(rel, text):
         p = os.path.join(d, rel)
         if not os.path.exists(p) or open(p).read() != text:
-            open(p, 'w').write(text)
+            tmp = p + f'.{os.getpid()}.tmp'
+            open(tmp, 'w').write(text)
+            os.replace(tmp, p)
     put('Cargo.toml', CARGO_TOML.format(repo=REPO, feats=', '.join(f'"{f}"' for f in feats), extra=extra_deps))
     put('.cargo/config.toml', '[net]\noffline = true\n')
     put('src/lib.rs', lib_text)
@@ -135,8 +137,17 @@ def run_family(cfg, crate_dir, family, lib_text, meta, jobs=8, timeout=3000):
         lock = _locks.setdefault(cfg, threading.Lock())
         cmd = ['cargo', 'kani', '--target-dir', os.path.join(BUILD, 'kani-target', cfg), '-j', str(jobs),
                '--output-format', 'terse', '--harness', f'{family}::']
-        with lock:   # one cargo invocation per crate at a time (cargo holds a build lock anyway)
-            rc, out, err, wall = run(cmd, cwd=crate_dir, timeout=timeout)
+        import fcntl
+        with lock:   # one cargo-kani invocation per harness crate at a time, also across processes
+            with open(os.path.join(BUILD, 'kani', cfg + '.lock'), 'w') as lf:
+                fcntl.flock(lf, fcntl.LOCK_EX)
+                try:
+                    res = cache_get(key)      # another process may have produced it while we waited
+                    if res is not None:
+                        return _finish(name, res, harnesses, cached=True)
+                    rc, out, err, wall = run(cmd, cwd=crate_dir, timeout=timeout)
+                finally:
+                    fcntl.flock(lf, fcntl.LOCK_UN)
         res = {'cmd': f'(cd {crate_dir} && {" ".join(cmd)})', 'rc': rc, 'wall_s': round(wall, 2)}
         if rc == -9:
             res['undecided'] = [{'reason': f'kani family {family} timed out after {timeout}s'}]
